@@ -16,6 +16,7 @@
 /* deterministic, thread-safe system entropy (no shared state in the harness itself) */
 ssize_t getrandom(void *buf, size_t n, unsigned flags) { (void)flags; uint8_t *b = buf; for (size_t i = 0; i < n; i++) b[i] = (uint8_t)(0x5A ^ (i * 7)); return (ssize_t)n; }
 
+void *c16_shared_ct; uint8_t c16_shared_ct_key[16], c16_shared_ct_nonce[16];   /* not used by the explorer */
 static shared_t *SH, *SH0; static tctx *CTX[VP_MAXT], *REF[VP_MAXT];
 static int OPI[VP_MAXT], NT, SHARED_IN, BOUND;
 static long nsched, nviol, total_sched, total_pairs; static int maxpoints; static double t_end;
